@@ -179,6 +179,12 @@ class CallMixin:
         for k in kwargs:
             if k not in params and k not in fi.kwonly:
                 raise OutOfReach(f'unexpected keyword {k} for {fi.fid}')
+        # a JSON item passed where the callee declares str: it is (must be) a string item of the document
+        for a in node.args.args:
+            v = env.get(a.arg)
+            if isinstance(v, VElem) and isinstance(a.annotation, ast.Name) and a.annotation.id == 'str':
+                self._cur_path = path
+                env[a.arg] = self.coerce(v, STR)
         return env
 
     def call_function(self, fi, args, kwargs, path, node=None):
@@ -186,9 +192,14 @@ class CallMixin:
         ln = getattr(node, 'lineno', None)
         con = ctx.contracts.get(fi.fid)
         recursive = fi.fid in ctx.call_stack
+        if (con is not None and con.as_function and getattr(ctx, 'no_as_function', 0) == 0 and fi.fid != ctx.cur_fid
+                and fi.fid not in self.reveal and not recursive):
+            return [(self.apply_as_function(fi, con, args, kwargs, path), path)]
         use_contract = con is not None and (recursive or fi.fid == ctx.cur_fid or (con.opaque and fi.fid not in self.reveal))
         if use_contract and ctx.inline_all > 0 and con.functional is None and not recursive:
             use_contract = False
+        if use_contract and ctx.generic_depth > 0 and con.functional is None and not recursive and fi.fid != ctx.cur_fid:
+            use_contract = False        # a relational contract gives no value under a quantified index: unfold the callee
         if use_contract:
             return self.apply_contract(fi, con, args, kwargs, path, node)
         if recursive:
@@ -216,6 +227,37 @@ class CallMixin:
         if not outs:
             raise PathAbort(f'no feasible path through {fi.fid}')
         return outs
+
+    def apply_as_function(self, fi, con, args, kwargs, path):
+        """a pure function of value arguments (str / int / bool) used as a mathematical function: an uninterpreted symbol whose
+        only known properties are the clauses of its (separately verified) contract and the lemmas proved about it"""
+        ctx = self.ctx
+        env = self.bind_params(fi, args, kwargs, path)
+        names = [a.arg for a in fi.node.args.args]
+        kinds = [self.ann_kind(a.annotation, fi) for a in fi.node.args.args]
+        rk = self.ann_kind(fi.node.returns, fi)
+        if any(k[0] not in ('str', 'int', 'bool') for k in kinds + [rk]):
+            raise OutOfReach(f'as_function contract of {fi.fid} on non-value kinds')
+        f = self.uf('fn_' + fi.qualname.replace('.', '_'), [ctx.sorts.sort_of(k) for k in kinds], ctx.sorts.sort_of(rk))
+        key = ('as_function', fi.fid)
+        if key not in ctx.str_fns:
+            ctx.str_fns[key] = True
+            formals = [z3.Const(f'{n}!u', ctx.sorts.sort_of(k)) for n, k in zip(names, kinds)]
+            fenv = {n: ctx.val_of(k, t) for n, k, t in zip(names, kinds, formals)}
+            app = f(*formals)
+            fenv['result'] = ctx.val_of(rk, app)
+            ctx.spec_mode += 1
+            try:
+                for cname, clause in con.posts:
+                    g = self.eval_clause(con, clause, fenv, Path())
+                    ctx.axioms.append(z3.ForAll(formals, g, patterns=[app]))
+            finally:
+                ctx.spec_mode -= 1
+            ctx.assumptions.add(f'{fi.qualname} is used as a mathematical function of its arguments (pure and deterministic: no reads of '
+                                f'mutable state in its body), known through its own verified contract and the lemmas proved about it')
+            ctx.used_contracts.add(fi.fid)
+        vals = [self.coerce(env[n], k) for n, k in zip(names, kinds)]
+        return ctx.val_of(rk, f(*[v.t for v in vals]))
 
     # ------------------------------------------------------------------ contracts at call sites
     def apply_contract(self, fi, con, args, kwargs, path, node):
@@ -421,6 +463,8 @@ class CallMixin:
                 return DATA
             if n == 'Element':
                 return ELEM
+            if n == 'PyObject':
+                return PYVAL
             if n == 'ElemList':
                 return ELEMLIST
             if n in self.ctx.sorts.enum_sorts:
